@@ -36,6 +36,7 @@ def run(ctx, rep):
     PR.check_try_parse(fx, rep, "C05.7")
     import api_rules as AR
     AR.check_getters(fx, rep, "C05.api", "mapping::ParseError")
+    AR.check_mapping_wiring(fx, rep, "C05.api")
     # floor: combinator call sites in the record parsers (counted on the pinned tree: 34)
     calls = 0
     PR.use(fx)
